@@ -337,7 +337,7 @@ class BaseEngine(abc.ABC):
         # setting shots >1 for a TDM program corresponds to further unrolling the program,
         # meaning that we still only need to execute it once
         tdm_options = {"modes": None, "shots": 1 if shots else None, "received_rolled": False}
-        if program.is_unrolled:
+        if not program.is_unrolled:
             tdm_options["received_rolled"] = True
 
         # if a tdm program is input in a rolled state, then unroll it
